@@ -6,9 +6,12 @@
 -/
 import Vita.C05.Lemmas
 import Vita.C05.Laws
+import Vita.C05.ClsLemmas
+import Vita.C05.GaussLaws
+import Vita.C05.GenLemmas
 
 namespace Vita.C05
-open Num
+open Num NumC
 
 /-! ## 1. the running mean recurrence is the mean -/
 
@@ -335,6 +338,443 @@ theorem no_nan_shipped {F} [Num F] (L : IEEELaws F) (k : ErrKind) (step : Nat) (
   obtain ⟨x, _, rfl⟩ := he
   exact err_fin_nonneg L k _ _
 
+/-! ## 10. classification evaluators END TO END: from the program's outputs to the fitness
+
+  `Cls.dynSlotEvaluator`, `Cls.gaussianEvaluator`, `Cls.binaryEvaluator` build the classifier from
+  the outputs of the member programs on the training examples (the documented rules of
+  Classify.lean) and score the same examples.  `ex` = any `exp`, `dsc` = any discretization. -/
+
+/-- the tagging pass keeps the examples: same number, same labels, same counters -/
+theorem tagAll_keeps {F} [Num F] (tg : List (Option F → Nat × F)) (d : List (Cls.TEx F)) :
+    (Cls.tagAll tg d).map (·.label) = d.map (·.label) ∧
+    (Cls.tagAll tg d).map (·.difficulty) = d.map (·.difficulty) ∧
+    (Cls.tagAll tg d).map (·.tagLabel) = d.map (fun e => (Cls.teamTag tg e).1) := by
+  unfold Cls.tagAll Cls.toCEx
+  simp [List.map_map, Function.comp_def]
+
+/-- dyn_slot / binary, any number of member programs: the fitness is minus the number of training
+    examples whose DOCUMENTED tag (slot table built from these very examples / sign of the output;
+    winner takes all for a team) differs from the label. -/
+theorem count_evaluators_end_to_end (ex : Rat → Rat) (dsc : Rat → Nat → Nat)
+    (classes xslot members : Nat) (d : List (Cls.TEx Rat)) :
+    letI := ratNumC ex dsc
+    (Cls.dynSlotEvaluator classes xslot members d).1 =
+      [ - ((nWrong (Cls.tagAll (Cls.dynTaggers classes xslot members d) d) : Nat) : Rat) ] ∧
+    (Cls.binaryEvaluator members d).1 =
+      [ - ((nWrong (Cls.tagAll (Cls.binTaggers members) d) : Nat) : Rat) ] := by
+  letI := ratNumC ex dsc
+  exact ⟨count_is_minus_misclassified _, count_is_minus_misclassified _⟩
+
+/-- all three, any number type: afterwards `difficulty'ᵢ = difficultyᵢ + [documented tagᵢ ≠ labelᵢ]`,
+    one entry per example, in order. -/
+theorem class_evaluators_difficulty {F} [NumC F] (classes xslot members : Nat) (d : List (Cls.TEx F)) :
+    (Cls.dynSlotEvaluator classes xslot members d).2.map (·.difficulty) =
+      d.map (fun e => e.difficulty +
+        (if (Cls.teamTag (Cls.dynTaggers classes xslot members d) e).1 ≠ e.label then 1 else 0)) ∧
+    (Cls.gaussianEvaluator classes members d).2.map (·.difficulty) =
+      d.map (fun e => e.difficulty +
+        (if (Cls.teamTag (Cls.gaussTaggers classes members d) e).1 ≠ e.label then 1 else 0)) ∧
+    (Cls.binaryEvaluator members d).2.map (·.difficulty) =
+      d.map (fun e => e.difficulty +
+        (if (Cls.teamTag (Cls.binTaggers members) e).1 ≠ e.label then 1 else 0)) := by
+  have key : ∀ (tg : List (Option F → Nat × F)),
+      ((Cls.tagAll tg d).map CEx.bump).map (·.difficulty) =
+        d.map (fun e => e.difficulty + (if (Cls.teamTag tg e).1 ≠ e.label then 1 else 0)) := by
+    intro tg
+    unfold Cls.tagAll Cls.toCEx CEx.bump CEx.wrong
+    simp only [List.map_map]
+    apply List.map_congr_left
+    intro e _
+    simp only [Function.comp]
+    by_cases h : (Cls.teamTag tg e).1 = e.label <;> simp [h]
+  refine ⟨?_, ?_, ?_⟩
+  · unfold Cls.dynSlotEvaluator; rw [(class_difficulty_exact (zero : F) _).1]; exact key _
+  · unfold Cls.gaussianEvaluator; rw [(class_difficulty_exact _ _).2.1]; exact key _
+  · unfold Cls.binaryEvaluator; rw [(class_difficulty_exact (zero : F) _).1]; exact key _
+
+/-- the binary classifier: class 1 exactly when the program has a value and it is > 0 -/
+theorem binary_tag_spec (o : Option Rat) :
+    ((Cls.binTag o).1 = 1 ↔ ∃ v, o = some v ∧ 0 < v) ∧ ((Cls.binTag o).1 = 0 ∨ (Cls.binTag o).1 = 1) := by
+  cases o with
+  | none => simp [Cls.binTag, Cls.valOr0]
+  | some v =>
+    simp only [Cls.binTag, Cls.valOr0, rat_lt, rat_zero, Option.some.injEq, exists_eq_left']
+    by_cases h : 0 < v <;> simp [h]
+
+/-! ### the Gaussian classifier's statistics are the documented ones -/
+
+/-- `fill_vector` feeds each output cut to ±10000000, a missing output as 0.0 -/
+theorem gauss_cut (ex : Rat → Rat) (dsc : Rat → Nat → Nat) (o : Option Rat) :
+    letI := ratNumC ex dsc
+    (-10000000 ≤ Cls.cutVal o ∧ Cls.cutVal o ≤ 10000000) ∧
+    (o = none → Cls.cutVal o = 0) ∧
+    (∀ v, o = some v → -10000000 ≤ v → v ≤ 10000000 → Cls.cutVal o = v) ∧
+    (∀ v, o = some v → 10000000 < v → Cls.cutVal o = 10000000) ∧
+    (∀ v, o = some v → v < -10000000 → Cls.cutVal o = -10000000) := by
+  letI := ratNumC ex dsc
+  have hcut : (cut : Rat) = 10000000 := rfl
+  cases o with
+  | none =>
+    simp only [Cls.cutVal, Cls.valOr0, rat_lt, rat_neg, rat_zero, hcut]
+    have h1 : ¬ ((10000000 : Rat) < 0) := by grind
+    have h2 : ¬ ((0 : Rat) < -10000000) := by grind
+    simp only [h1, h2, decide_false, Bool.false_eq_true, if_false]
+    refine ⟨⟨by grind, by grind⟩, by first | trivial | (intros; first | trivial | rfl), ?_, ?_, ?_⟩ <;> intro v hv <;> simp at hv
+  | some w =>
+    simp only [Cls.cutVal, Cls.valOr0, rat_lt, rat_neg, hcut, decide_eq_true_eq]
+    by_cases h1 : (10000000 : Rat) < w
+    · simp only [h1, if_true]
+      refine ⟨⟨by grind, by grind⟩, by simp, ?_, by first | trivial | (intros; first | trivial | rfl), ?_⟩
+      · intro v hv _ h3; simp only [Option.some.injEq] at hv; subst hv; grind
+      · intro v hv h3; simp only [Option.some.injEq] at hv; subst hv; grind
+    · by_cases h2 : w < -10000000
+      · simp only [h1, h2, if_false, if_true]
+        refine ⟨⟨by grind, by grind⟩, by simp, ?_, ?_, by first | trivial | (intros; first | trivial | rfl)⟩
+        · intro v hv h3 _; simp only [Option.some.injEq] at hv; subst hv; grind
+        · intro v hv h3; simp only [Option.some.injEq] at hv; subst hv; grind
+      · simp only [h1, h2, if_false]
+        refine ⟨⟨by grind, by grind⟩, by simp, ?_, ?_, ?_⟩
+        · intro v hv _ _; simp only [Option.some.injEq] at hv; exact hv
+        · intro v hv h3; simp only [Option.some.injEq] at hv; subst hv; exact absurd h3 h1
+        · intro v hv h3; simp only [Option.some.injEq] at hv; subst hv; exact absurd h3 h2
+
+/-- `fill_vector` : the distribution of class `c` has seen exactly the cut outputs of the training
+    examples labelled `c`, in dataset order – ALL of them, also those without a value (as 0.0). -/
+theorem gauss_fill_per_class {F} [NumC F] (classes : Nat) (train : List (Option F × Nat)) (c : Nat)
+    (hc : c < classes) :
+    (Cls.fillVector classes train)[c]? = some (Cls.pushAll Cls.Dist.empty (Cls.classVals train c)) := by
+  unfold Cls.fillVector
+  rw [Cls.foldl_modify_getElem?]
+  simp [hc]
+
+/-- Welford's on-line update computes the two-pass statistics: after pushing a non-empty list of
+    values into an empty distribution, `count` is their number, `mean()` their arithmetic mean and
+    `variance()` their population variance `Σ (x − mean)² / n`. -/
+theorem welford_is_mean_variance (ex : Rat → Rat) (dsc : Rat → Nat → Nat) (xs : List Rat) (h : xs ≠ []) :
+    letI := ratNumC ex dsc
+    let d := Cls.pushAll Cls.Dist.empty xs
+    d.count = xs.length ∧ d.mean = xs.sum / (xs.length : Rat) ∧
+    d.variance = (xs.map (fun x => (x - d.mean) * (x - d.mean))).sum / (xs.length : Rat) := by
+  letI := ratNumC ex dsc
+  intro d
+  have hinv := pushAll_inv ex dsc xs Cls.Dist.empty [] ⟨rfl, fun h0 => absurd h0 (by decide)⟩
+  simp only [List.nil_append] at hinv
+  obtain ⟨hc, hm⟩ := hinv
+  have hlen : 0 < xs.length := List.length_pos_iff.mpr h
+  have hpos : 0 < d.count := by show 0 < (Cls.pushAll Cls.Dist.empty xs).count; omega
+  obtain ⟨hmean, hm2⟩ := hm hpos
+  have hcR : ((Cls.pushAll Cls.Dist.empty xs).count : Rat) = (xs.length : Rat) := by rw [hc]
+  have hne : (xs.length : Rat) ≠ 0 := by
+    have : (0 : Rat) < (xs.length : Rat) := Rat.natCast_pos.mpr hlen
+    grind
+  have hmean' : d.mean = xs.sum / (xs.length : Rat) := by
+    show (Cls.pushAll Cls.Dist.empty xs).mean = _
+    rw [← hmean, hcR, Rat.div_def, Rat.mul_assoc, Rat.mul_inv_cancel _ hne, Rat.mul_one]
+  refine ⟨hc, hmean', ?_⟩
+  show Cls.Dist.variance (Cls.pushAll Cls.Dist.empty xs) = _
+  unfold Cls.Dist.variance
+  show (Cls.pushAll Cls.Dist.empty xs).m2 / (((Cls.pushAll Cls.Dist.empty xs).count : Nat) : Rat) = _
+  rw [hm2, hcR, sum_sq_dev]
+  congr 1
+  have hs : xs.sum = (Cls.pushAll Cls.Dist.empty xs).mean * (xs.length : Rat) := by rw [← hmean, hcR]
+  show _ = sumSq xs - 2 * (Cls.pushAll Cls.Dist.empty xs).mean * xs.sum +
+    (xs.length : Rat) * ((Cls.pushAll Cls.Dist.empty xs).mean * (Cls.pushAll Cls.Dist.empty xs).mean)
+  rw [hs]
+  grind
+
+/-- a class with ONE training example: mean = its (cut) output, variance 0 – the "borderline"
+    branch of `tag` (score 1 within `issmall` of the mean, else 0) -/
+theorem gauss_single_example_class (ex : Rat → Rat) (dsc : Rat → Nat → Nat) (x : Rat) :
+    letI := ratNumC ex dsc
+    (Cls.pushAll Cls.Dist.empty [x]).mean = x ∧ (Cls.pushAll Cls.Dist.empty [x]).variance = 0 ∧
+    ∀ y : Rat, Cls.gaussP y (Cls.pushAll Cls.Dist.empty [x]) = if (y - x).abs < 1 / 2 ^ 51 then 1 else 0 := by
+  letI := ratNumC ex dsc
+  have h := welford_is_mean_variance ex dsc [x] (by simp)
+  simp only [List.sum_cons, List.sum_nil, List.length_cons, List.length_nil, List.map_cons, List.map_nil] at h
+  obtain ⟨_, hm, hv⟩ := h
+  have h01 : ((0 + 1 : Nat) : Rat) = 1 := by simp
+  have hm' : (Cls.pushAll Cls.Dist.empty [x]).mean = x := by rw [hm, h01]; grind
+  have hv' : (Cls.pushAll Cls.Dist.empty [x]).variance = 0 := by rw [hv, hm', h01]; grind
+  refine ⟨hm', hv', fun y => ?_⟩
+  unfold Cls.gaussP
+  simp only [hv', hm']
+  have hs : issmall (0 : Rat) = true := by
+    have := eps2_pos
+    simp [issmall, Rat.abs]; grind
+  have h0 : Rat.abs 0 < 1 / 2 ^ 51 := by
+    have := eps2_pos
+    simp [Rat.abs]; grind
+  have habs : (y - x).abs.abs = (y - x).abs := Rat.abs_of_nonneg Rat.abs_nonneg
+  simp only [issmall, rat_abs, rat_sub, rat_lt, rat_eps2, rat_one, rat_zero, decide_eq_true_eq, h0, if_true, habs]
+
+/-- the documented Gaussian score, end to end (exact arithmetic) -/
+theorem gaussian_end_to_end_score (ex : Rat → Rat) (dsc : Rat → Nat → Nat) (classes members : Nat)
+    (d : List (Cls.TEx Rat)) :
+    letI := ratNumC ex dsc
+    (Cls.gaussianEvaluator classes members d).1 =
+      [ ((Cls.tagAll (Cls.gaussTaggers classes members d) d).map
+          (gaussTerm ((classes - 1 : Nat) : Rat))).sum ] := by
+  letI := ratNumC ex dsc
+  exact gaussian_score _ _
+
+/-! ### never NaN, never positive: the Gaussian evaluator under the IEEE laws -/
+
+/-- EVERY dataset (≥ 2 classes), every program output – missing, astronomically large, beyond the
+    ±1e7 cut, NaN –, every class layout (single example, equal outputs: variance 0; no usable
+    example: variance NaN; every score underflowing: sum 0), individuals and teams:
+    each confidence is in [0,1] and the fitness is one component that is not NaN and ≤ 0. -/
+theorem gaussian_no_nan {F} [NumC F] (G : GaussLaws F) (classes members : Nat) (hc : 2 ≤ classes)
+    (d : List (Cls.TEx F)) :
+    (∀ f ∈ (Cls.gaussianEvaluator classes members d).1, ¬ G.base.nan f ∧ le f (zero : F) = true) ∧
+    (∀ e ∈ Cls.tagAll (Cls.gaussTaggers classes members d) d,
+      ¬ G.base.nan e.sureness ∧ le (zero : F) e.sureness = true ∧ le e.sureness (one : F) = true) := by
+  refine ⟨fun f hf => Cls.gaussianEvaluator_nonpos G classes members hc d f hf, ?_⟩
+  intro e he
+  unfold Cls.tagAll at he
+  simp only [List.mem_map] at he
+  obtain ⟨x, _, rfl⟩ := he
+  have hu := Cls.teamTag_unit G _ (Cls.gaussTaggers_unit G classes members d) x
+  exact ⟨Cls.unit_not_nan G hu, G.base.sp_nn _ hu.1, hu.2⟩
+
+/-- the clamping of `fill_vector` under the same laws: whatever the program yields (nothing, ±1e308,
+    anything but NaN – a NaN is ignored by `distribution::add`), the value fed to the class
+    distribution lies in [−1e7, 1e7] -/
+theorem gauss_cut_bounded {F} [NumC F] (G : GaussLaws F) (o : Option F) (h : ¬ G.base.nan (Cls.valOr0 o)) :
+    le (neg (cut : F)) (Cls.cutVal o) = true ∧ le (Cls.cutVal o) (cut : F) = true :=
+  Cls.cutVal_bounded G o h
+
+/-- … instantiated with exact arithmetic (any `exp` with `0 ≤ exp x ≤ 1` for `x ≤ 0`): the
+    end-to-end Gaussian fitness is ≤ 0 (this also shows that `GaussLaws` is satisfiable). -/
+theorem gaussian_evaluator_nonpos (ex : Rat → Rat) (dsc : Rat → Nat → Nat)
+    (hex : ∀ x : Rat, x ≤ 0 → 0 ≤ ex x ∧ ex x ≤ 1) (classes members : Nat) (hc : 2 ≤ classes)
+    (d : List (Cls.TEx Rat)) :
+    letI := ratNumC ex dsc
+    ∀ f ∈ (Cls.gaussianEvaluator classes members d).1, f ≤ 0 := by
+  letI := ratNumC ex dsc
+  intro f hf
+  have := (gaussian_no_nan (ratGaussLaws ex dsc hex) classes members hc d).1 f hf
+  simpa using this.2
+
+/-! ## 11. `fast()`, `test_evaluator`, penalties of every type, GA / DE behind a constraint -/
+
+/-- `evaluator<T>::fast` (not overridden by the classification, GA/DE and test evaluators) IS the
+    standard evaluation -/
+theorem default_fast_is_operator {α β} (op : α → β) (x : α) : defaultFast op x = op x := rfl
+
+/-- `test_evaluator` is TIME-INVARIANT: in any history of calls on one object (any starting buffer),
+    two calls on the same individual return the same fitness. -/
+theorem test_time_invariant {α : Type} {F} [DecidableEq α] [NumC F] (rnd : Nat → F) (k : TestKind)
+    (buf xs : List α) (i j : Nat) (x : α) (hi : xs[i]? = some x) (hj : xs[j]? = some x) :
+    (testRun rnd k buf xs)[i]? = (testRun rnd k buf xs)[j]? := by
+  rw [testRun_getElem?, testRun_getElem?, hi, hj]
+
+/-- `fixed`: the same fitness `(0)` for everybody -/
+theorem test_fixed_zero {α : Type} {F} [DecidableEq α] [NumC F] (rnd : Nat → F) (buf xs : List α) (i : Nat)
+    (hi : i < xs.length) : (testRun rnd .fixed buf xs)[i]? = some [zero] := by
+  rw [testRun_getElem?]
+  simp [List.getElem?_eq_getElem hi, testVal]
+
+/-- `distinct`: different individuals get different fitnesses (exact arithmetic; the fitness is
+    the position in the buffer of first sightings) -/
+theorem test_distinct_injective {α : Type} [DecidableEq α] (ex : Rat → Rat) (dsc : Rat → Nat → Nat)
+    (rnd : Nat → Rat) (xs : List α) (i j : Nat) (x y : α)
+    (hi : xs[i]? = some x) (hj : xs[j]? = some y) (hxy : x ≠ y) :
+    letI := ratNumC ex dsc
+    (testRun rnd .distinct [] xs)[i]? ≠ (testRun rnd .distinct [] xs)[j]? := by
+  letI := ratNumC ex dsc
+  rw [testRun_getElem?, testRun_getElem?, hi, hj]
+  simp only [Option.map_some, reduceCtorEq, if_false, testVal, ne_eq, Option.some.injEq, List.cons.injEq,
+    and_true]
+  have hnd := nodup_finalBuf xs ([] : List α) List.nodup_nil
+  -- both individuals are in the final buffer
+  have hmem : ∀ (k : Nat) (z : α), xs[k]? = some z → z ∈ finalBuf ([] : List α) xs := by
+    intro k z hk
+    have hsplit : ∀ (l : List α) (b : List α) (k : Nat), l[k]? = some z → z ∈ finalBuf b l := by
+      intro l
+      induction l with
+      | nil => intro b k h; simp at h
+      | cons a rest ih =>
+        intro b k h
+        cases k with
+        | zero =>
+          simp only [List.getElem?_cons_zero, Option.some.injEq] at h
+          subst h
+          exact (idxOf_finalBuf rest (grow b a) a (mem_grow b a)).2
+        | succ k' =>
+          simp only [List.getElem?_cons_succ] at h
+          exact ih (grow b a) k' h
+    exact hsplit xs [] k hk
+  have hx := hmem i x hi
+  have hy := hmem j y hj
+  intro heq
+  have hnat : (finalBuf ([] : List α) xs).idxOf x = (finalBuf ([] : List α) xs).idxOf y := by
+    have : (((finalBuf ([] : List α) xs).idxOf x : Nat) : Rat) = (((finalBuf ([] : List α) xs).idxOf y : Nat) : Rat) := heq
+    exact Rat.natCast_inj.mp this
+  have h1 := List.getElem_idxOf (List.idxOf_lt_length_of_mem hx)
+  have h2 := List.getElem_idxOf (List.idxOf_lt_length_of_mem hy)
+  apply hxy
+  rw [← h1, ← h2]
+  simp only [hnat]
+
+/-- `constrained_evaluator`, penalty function of ANY return type: the base fitness with one component
+    prepended (also around a GA / DE evaluator whose objective is not finite: the result is the
+    one-component fitness `(−penalty)`) -/
+theorem constrained_typed_shape {F} [NumC F] (p : Pen F) (base : List F) (fv : F) :
+    constrainedEvalP p base = penaltyComponent p :: base ∧
+    (isFinite fv = false → constrainedEvalP p (gaEval fv) = [penaltyComponent p]) ∧
+    (isFinite fv = true → constrainedEvalP p (gaEval fv) = [penaltyComponent p, fv]) := by
+  refine ⟨rfl, ?_, ?_⟩ <;> intro h <;> simp [constrainedEvalP, gaEval, h]
+
+/-- the prepended component is minus the penalty, hence ≤ 0 for every non-negative penalty of
+    every integral / boolean / floating type (exact arithmetic) -/
+theorem penalty_component_nonpos (ex : Rat → Rat) (dsc : Rat → Nat → Nat) :
+    letI := ratNumC ex dsc
+    (∀ bits n, penaltyComponent (Pen.nat bits n : Pen Rat) = -(n : Rat) ∧ penaltyComponent (Pen.nat bits n : Pen Rat) ≤ 0) ∧
+    (∀ n : Int, 0 ≤ n → penaltyComponent (Pen.int n : Pen Rat) ≤ 0) ∧
+    (∀ b, penaltyComponent (Pen.bool b : Pen Rat) ≤ 0) ∧
+    (∀ x : Rat, 0 ≤ x → penaltyComponent (Pen.dbl x) ≤ 0) := by
+  letI := ratNumC ex dsc
+  refine ⟨fun bits n => ?_, fun n hn => ?_, fun b => ?_, fun x hx => ?_⟩
+  · have h : (0 : Rat) ≤ (n : Rat) := Rat.natCast_nonneg
+    refine ⟨rfl, ?_⟩
+    show -(n : Rat) ≤ 0
+    grind
+  · have hlt : ¬ n < 0 := by omega
+    show -(if n < 0 then -((n.natAbs : Nat) : Rat) else ((n.toNat : Nat) : Rat)) ≤ 0
+    simp only [hlt, if_false]
+    have h : (0 : Rat) ≤ (n.toNat : Rat) := Rat.natCast_nonneg
+    grind
+  · cases b
+    · show -(0 : Rat) ≤ 0; grind
+    · show -(1 : Rat) ≤ 0; grind
+  · show -x ≤ 0; grind
+
+/-- WITNESS of the defect repaired in vita (fix3-c05): the shipped expression
+    `static_cast<double>(-penalty_(prg))` negates in the penalty's type – for an unsigned penalty
+    `0 < n < 2^bits` the component was the POSITIVE number `2^bits − n`. -/
+theorem legacy_unsigned_penalty_positive (ex : Rat → Rat) (dsc : Rat → Nat → Nat) (bits n : Nat)
+    (h0 : 0 < n) (h1 : n < 2 ^ bits) :
+    letI := ratNumC ex dsc
+    legacyComponent (Pen.nat bits n : Pen Rat) = ((2 ^ bits - n : Nat) : Rat) ∧
+    0 < legacyComponent (Pen.nat bits n : Pen Rat) := by
+  letI := ratNumC ex dsc
+  have hmod : (2 ^ bits - n % 2 ^ bits) % 2 ^ bits = 2 ^ bits - n := by
+    rw [Nat.mod_eq_of_lt h1]
+    exact Nat.mod_eq_of_lt (by omega)
+  have heq : legacyComponent (Pen.nat bits n : Pen Rat) = ((2 ^ bits - n : Nat) : Rat) := by
+    show (((2 ^ bits - n % 2 ^ bits) % 2 ^ bits : Nat) : Rat) = _
+    rw [hmod]
+  refine ⟨heq, ?_⟩
+  rw [heq]
+  exact Rat.natCast_pos.mpr (by omega)
+
+/-- IEEE laws: a finite penalty ≥ 0 gives a component that is not NaN and ≤ 0 -/
+theorem penalty_component_no_nan {F} [NumC F] (L : IEEELaws F) (p : Pen F)
+    (h : L.fin p.toF ∧ nn p.toF) : ¬ L.nan (penaltyComponent p) ∧ le (penaltyComponent p) (zero : F) = true :=
+  L.neg_nonpos _ h.1 h.2
+
+/-! ## 12. the error functors AS THE CODE HAS THEM
+
+  `Gen.maeErr … Gen.countErr`, `Gen.issmall` (Gen.lean) are generated on every run by
+  tools/translate_errf.py from the clang AST of `*_error_functor<i_mep>::operator()`
+  (evaluator.tcc) and `issmall` (utility.h) as terms over `FloatOps F`.  The theorems below are
+  about THOSE terms: they stop checking when the text of the functors changes its meaning. -/
+
+/-- the generated functors are the model's functors – for every carrier of the `FloatOps` embedding
+    (`numOfFloatOps` reads the model's constants off the C++ literals) -/
+theorem generated_functors_are_model {F : Type} [FloatOps F] (k : ErrKind) (o : Option F) (t : F) :
+    Gen.errF k o t = @errF F (numOfFloatOps F) k o t ∧
+    ∀ v : F, Gen.issmall v = @issmall F (numOfFloatOps F) v := by
+  refine ⟨?_, fun v => gen_issmall v⟩
+  rw [gen_errF]
+
+/-- read exactly (`ratFloatOps`: a literal denotes the rational it encodes), the code's functors
+    compute the documented per-example errors, illegal-value penalties and guards included -/
+theorem generated_documented_errors (a t : Rat) :
+    @Gen.errF Rat ratFloatOps .mae (some a) t = (a - t).abs ∧
+    @Gen.errF Rat ratFloatOps .mse (some a) t = (a - t) * (a - t) ∧
+    @Gen.errF Rat ratFloatOps .rmae (some a) t =
+      (if (t - a).abs ≤ 10 / 2 ^ 1022 then 0 else 200 * (t - a).abs / (a.abs + t.abs)) ∧
+    @Gen.errF Rat ratFloatOps .count (some a) t = (if (a - t).abs < 1 / 2 ^ 51 then 0 else 1) ∧
+    @Gen.errF Rat ratFloatOps .mae none t = 179769313486231570814527423731704356798070567525844996598917476803157260780028538760589558632766878171540458953514382464234321326889464182768467546703537516986049910576551282076245490090389328944075868508455133942304583236903222948165808559332123348274797826204144723168738177180919299881250404026184124858368 / 100 ∧
+    @Gen.errF Rat ratFloatOps .mse none t = @Gen.errF Rat ratFloatOps .mae none t ∧
+    @Gen.errF Rat ratFloatOps .rmae none t = 200 ∧ @Gen.errF Rat ratFloatOps .count none t = 1 ∧
+    (∀ v : Rat, @Gen.issmall Rat ratFloatOps v = decide (v.abs < 1 / 2 ^ 51)) := by
+  simp only [gen_errF_rat, gen_issmall_rat]
+  have h := documented_errors a t
+  refine ⟨h.1, h.2.1, h.2.2.1, h.2.2.2.1, ?_, ?_, h.2.2.2.2.2.2.1, h.2.2.2.2.2.2.2, fun v => rfl⟩
+  · rw [h.2.2.2.2.1]; rfl
+  · rw [h.2.2.2.2.1, h.2.2.2.2.2.1]
+
+/-- the evaluators built on the code's functors (exact reading): one component, minus the mean of
+    the documented error over the visited examples; never positive; `(0)` iff every visited
+    target is reproduced within the documented tolerance -/
+theorem generated_fitness (k : ErrKind) (step : Nat) (d : List (Ex Rat)) :
+    (visited step d 0 ≠ [] →
+      (sumOfErrors (@Gen.errF Rat ratFloatOps k) step d).1 =
+        [ - (((visited step d 0).map (errOf (errF k))).sum / ((visited step d 0).length : Rat)) ]) ∧
+    (∀ f ∈ (sumOfErrors (@Gen.errF Rat ratFloatOps k) step d).1, f ≤ 0) ∧
+    (visited step d 0 ≠ [] →
+      ((sumOfErrors (@Gen.errF Rat ratFloatOps k) step d).1 = [0] ↔
+        ∀ e ∈ visited step d 0, Matches k e.out e.target)) := by
+  rw [gen_errF_rat]
+  exact ⟨fitness_is_minus_mean _ step d, fitness_nonpos k step d, zero_iff_all_match_stride k step d⟩
+
+/-- … and their difficulty update (any carrier): visited examples whose error, as the code computes
+    it, is not `issmall` (as the code defines it) get `+1`, nothing else is touched -/
+theorem generated_difficulty {F : Type} [FloatOps F] (k : ErrKind) (d : List (Ex F)) :
+    (@evalFull F (numOfFloatOps F) (Gen.errF k) d).2 =
+      d.map (fun e => if Gen.issmall (Gen.errF k e.out e.target) then e
+                      else { e with difficulty := e.difficulty + 1 }) := by
+  rw [@difficulty_exact F (numOfFloatOps F)]
+  rfl
+
+/-- never NaN, never positive: the evaluators built on the code's functors, any carrier obeying the
+    IEEE laws, any stride, any dataset, any outputs -/
+theorem generated_no_nan {F : Type} [FloatOps F] :
+    letI : Num F := numOfFloatOps F
+    ∀ (L : IEEELaws F) (k : ErrKind) (step : Nat) (d : List (Ex F)),
+      ∀ f ∈ (sumOfErrors (Gen.errF k) step d).1, ¬ L.nan f ∧ le f (zero : F) = true := by
+  intro L k step d
+  rw [gen_errF]
+  exact @no_nan_shipped F (numOfFloatOps F) L k step d
+
+/-! ## 13. an evaluator object evaluates the data it holds AT CALL TIME
+
+  `runHist call d ops` = a history on one evaluator object bound to one dataframe: the dataframe is
+  changed (rows appended / erased / reloaded, classes added) and `operator()` / `fast()` is called,
+  in any order.  `call` is the evaluator as a closure over its CONSTRUCTION PARAMETERS ONLY
+  (`soeCall k step`, `dynCall xslot members`, `gaussCall members`, `binCall members`). -/
+
+/-- EVERY call of EVERY history returns what the evaluator function gives on the data as they are
+    just before that call (rows, class table, counters – including the counter updates of earlier
+    calls): nothing seen at construction or at an earlier call is remembered. -/
+theorem history_current_data {D R : Type} (call : D → R × D) (d : D) (pre post : List (HistOp D)) :
+    (runHist call d (pre ++ HistOp.call :: post)).1[nCalls pre]? =
+      some (call (runHist call d pre).2).1 := by
+  rw [runHist_append]
+  simp only [runHist]
+  rw [List.getElem?_append_right (by rw [runHist_length]; exact Nat.le_refl _)]
+  simp [runHist_length]
+
+/-- … in particular what the dataframe held when the evaluator was constructed is irrelevant as
+    soon as it has been (re)loaded: two objects built on different data behave the same. -/
+theorem construction_data_irrelevant {D R : Type} (call : D → R × D) (atConstruction₁ atConstruction₂ now : D)
+    (ops : List (HistOp D)) :
+    runHist call atConstruction₁ (HistOp.mutate (fun _ => now) :: ops) =
+      runHist call atConstruction₂ (HistOp.mutate (fun _ => now) :: ops) := rfl
+
+/-- the Gaussian evaluator normalises with the number of classes of the class table AT CALL TIME:
+    a call on the frame `fr` is the documented score with `fr.classes − 1` (exact arithmetic) -/
+theorem gaussian_scale_is_current (ex : Rat → Rat) (dsc : Rat → Nat → Nat) (members : Nat)
+    (fr : ClsFrame Rat) :
+    letI := ratNumC ex dsc
+    (gaussCall members fr).1 =
+      [ ((Cls.tagAll (Cls.gaussTaggers fr.classes members fr.rows) fr.rows).map
+          (gaussTerm ((fr.classes - 1 : Nat) : Rat))).sum ] := by
+  letI := ratNumC ex dsc
+  exact gaussian_end_to_end_score ex dsc fr.classes members fr.rows
+
 /-! ## non-vacuity -/
 
 /-- the law structure is inhabited (exact arithmetic) -/
@@ -354,5 +794,30 @@ example : ((evalFull (errF .count) sample).2.map (·.difficulty)) = [0, 8, 1] :=
 example : Matches .mae (some 3) 3 := rfl
 example : ¬ Matches .mae none 3 := by simp [Matches]
 example : visited 5 [0,1,2,3,4,5,6,7,8,9,10,11] 0 = [0, 5] := by decide
+
+/-- `GaussLaws` is inhabited (exact arithmetic, `exp x := 1` for instance) -/
+example : @GaussLaws Rat (ratNumC (fun _ => 1) (fun _ _ => 0)) :=
+  ratGaussLaws _ _ (fun _ _ => ⟨by grind, by grind⟩)
+
+/-- three calls on individuals 7, 9, 7 of a `distinct` test evaluator: fitnesses 0, 1, 0 -/
+example : @testRun Nat Rat _ (ratNumC (fun _ => 1) (fun _ _ => 0)) (fun _ => 0) .distinct [] [7, 9, 7] =
+    [[0], [1], [0]] := by
+  simp [testRun, testEval, bufferIndex]
+  exact ⟨rfl, rfl, rfl⟩
+/-- a history: evaluate, append a row, evaluate again – the second call sees three rows -/
+example : (runHist (fun (d : List Nat) => (d.length, d)) [1, 2] [.call, .mutate (· ++ [7]), .call]).1 = [2, 3] := rfl
+
+/-- hypotheses of `legacy_unsigned_penalty_positive` / `penalty_component_no_nan`: a penalty of `3u` -/
+example : 0 < 3 ∧ 3 < 2 ^ 32 := by omega
+example : @penaltyComponent Rat (ratNumC (fun _ => 1) (fun _ _ => 0)) (Pen.nat 32 3) = -3 := rfl
+example : @legacyComponent Rat (ratNumC (fun _ => 1) (fun _ _ => 0)) (Pen.nat 32 3) = 4294967293 := by
+  show (((2 ^ 32 - 3 % 2 ^ 32) % 2 ^ 32 : Nat) : Rat) = 4294967293
+  decide +kernel
+/-- the exact reading of the generated functors on a concrete example: |3 − 5| = 2, (3 − 5)² = 4 -/
+example : @Gen.errF Rat ratFloatOps .mae (some 3) 5 = 2 ∧ @Gen.errF Rat ratFloatOps .mse (some 3) 5 = 4 := by
+  have h := generated_documented_errors 3 5
+  refine ⟨h.1.trans ?_, h.2.1.trans ?_⟩
+  · simp [Rat.abs]; grind
+  · grind
 
 end Vita.C05
